@@ -140,6 +140,15 @@ class FakeProcess:
             self.exitcode = 1
             self.error = exc
             ctx.child_errors.append(f"{self.name}: {type(exc).__name__}: {exc}")
+        except KeyboardInterrupt as exc:  # a real child prints the traceback and exits with code 1
+            self.exitcode = 1
+            self.error = exc
+            ctx.deaths.append(self.args[0] if self.name == "_worker" else self.name)
+        except SystemExit as exc:  # sys.exit(n) inside a child ends it with that code
+            self.exitcode = exc.code if isinstance(exc.code, int) else (0 if exc.code is None else 1)
+            self.error = exc
+            if self.exitcode != 0:
+                ctx.deaths.append(self.args[0] if self.name == "_worker" else self.name)
         finally:
             ctx.current_worker = prev
 
